@@ -361,6 +361,19 @@ let lp_main guard path tablepath needpath =
               let idl = List.filter (fun l -> String.length l > 3 && String.sub l 0 3 = "DL ") o_lines in
               let ist = List.find_opt (fun l -> String.length l > 3 && String.sub l 0 3 = "ST ") o_lines in
               let ipanic = List.mem "RP" o_lines in
+              (* exactly once, counted over ALL recording threads: the deliveries this frame caused must satisfy the
+                 extracted dl_once_ok (no thread twice; own-format token => exactly the named thread; Interest => one thread) *)
+              let idels = List.filter_map (fun l -> match split_ws l with
+                | ["DL"; th; kind; raw; tok; mark; nh; cp] ->
+                    Some { d_thread = n_of_dec th; d_interest = (kind = "I"); d_raw = unhex raw; d_tok = unhex tok; d_mark = opt_n mark;
+                           d_nexthop = opt_n nh; d_cachepol = opt_n cp }
+                | _ -> None) idl in
+              if not (dl_once_ok c.cfg.r_nthreads idels) then begin
+                let ths = String.concat "," (List.map (fun d -> dec_of_n d.d_thread) idels) in
+                let tokd = match idels with d :: _ -> hexd d.d_tok | [] -> "-" in
+                oracle c.lid "duplicate-delivery" (Printf.sprintf "one received packet was queued %d time(s), to thread(s) [%s] of %s (PIT token %s): not exactly once per thread / not only the thread the token names"
+                  (List.length idels) ths c.nthr tokd)
+              end;
               (* one packet may be queued to several forwarding threads (prefix dispatch of local Data): one delivery *)
               let trip = List.sort_uniq compare (List.filter_map (fun l -> match split_ws l with
                 | ["DL"; _; _; raw; tok; mark; _; _] -> incr ndeliv; Some (raw, tok, mark) | _ -> None) idl) in
